@@ -183,7 +183,7 @@ class Observed:
 class RealQueued:
   """Drives a real HsmWithQueues through a history, recording per-op observations."""
 
-  def __init__(self, case, budget=30, instrumented=True, decorate=None, setup=None):
+  def __init__(self, case, budget=30, instrumented=True, decorate=None, setup=None, host=None):
     from miros.event import Event, signals
     self.Event, self.signals = Event, signals
     self.case = case
@@ -192,7 +192,13 @@ class RealQueued:
     self.rt.ids = [0]
     self.rt.recalled = []
     self.events = {}       # id -> Event object posted from outside
-    self.chart = hsmcheck.make_host("queued" if instrumented else "queued_off")
+    self.host = host
+    if host == "ao":
+      # a started active object (must be created inside a detsched run)
+      import miros.activeobject as ao_mod
+      self.chart = chartgen.bounded(ao_mod.ActiveObject)(name="vfao")
+    else:
+      self.chart = hsmcheck.make_host("queued" if instrumented else "queued_off")
     if setup is not None:
       setup(self.chart, self.rt)
     # every step's first offer identifies the dispatched event; a step boundary is a
@@ -215,6 +221,9 @@ class RealQueued:
   def start(self):
     o = Observed(["start_at", self.case["start"]])
     self.chart.start_at(self.rt.fns[self.case["start"]])
+    if self.host == "ao":
+      from .detsched import sched
+      sched().quiesce()
     self._collect(o)
     return o
 
@@ -253,5 +262,8 @@ class RealQueued:
       o.ret = c.complete_circuit()
     else:
       raise ValueError(k)
+    if self.host == "ao":
+      from .detsched import sched
+      sched().quiesce()
     self._collect(o)
     return o
